@@ -13,6 +13,7 @@ mod ops_reduce;
 mod ops_bits;
 mod ops_linalg;
 mod ops_create;
+mod ops_str;
 
 use common::*;
 use std::io::{BufRead, Write};
@@ -25,6 +26,7 @@ fn dispatch(op: &str, ty: &str, args: &[Arg]) -> String {
     if let Some(r) = ops_bits::dispatch(op, ty, args) { return r; }
     if let Some(r) = ops_linalg::dispatch(op, ty, args) { return r; }
     if let Some(r) = ops_create::dispatch(op, ty, args) { return r; }
+    if let Some(r) = ops_str::dispatch(op, ty, args) { return r; }
     if let Some(r) = ops_elem::dispatch(op, ty, args) { return r; }
     "bad".to_string()
 }
